@@ -161,7 +161,15 @@ def _multi_case(gd, be, acc, payload="basic"):
     _attach.OPTS["wellformed_only"] = True
     try:
         scfg = _drivers.make_scfg(gd, payload, "ctor", backedges=be)
-        done = _drivers.run_stages(scfg, "JLB", ctx)
+        if any(len(v) >= 4 for v in gd.values()):
+            # dense multi-way graphs are iterated as they are (the stages are
+            # not made for them and take long to say so)
+            from ..oracles.itercheck import check_iteration
+            _run_oracle(ctx, "C16.iteration", check_iteration, scfg)
+            ctx.hit("oracle.C16.iteration")
+            done = []
+        else:
+            done = _drivers.run_stages(scfg, "JLB", ctx)
     finally:
         _attach.OPTS["lenient"] = False
         _attach.OPTS["wellformed_only"] = False
@@ -171,6 +179,8 @@ def _multi_case(gd, be, acc, payload="basic"):
         acc.counters["multi.with_parallel_arcs"] += 1
     if any(k in v for k, v in gd.items()):
         acc.counters["multi.with_self_loops"] += 1
+    if any(len(v) >= 4 for v in gd.values()):
+        acc.counters["multi.with_four_or_more_successors"] += 1
     if be:
         acc.counters["multi.with_declared_backedges"] += 1
     case = {"kind": "multidigraph", "g": gd, "payload": payload}
@@ -209,13 +219,14 @@ def _run2(spec):
     else:
         for i in range(spec["start"], spec["start"] + spec["count"]):
             rng = _random.Random(f"c16m/{spec['seed']}/{i}")
-            n = rng.randint(2, 9)
+            wide = i % 4 == 3  # dense multi-way "state machines": up to 30 blocks, out-degree up to 7
+            n = rng.randint(8, 30) if wide else rng.randint(2, 9)
             names = [str(j) for j in range(n)]
             gd = {}
             for j, nm in enumerate(names):
                 # arborescence arc keeps most graphs iterable, then extra arcs
                 ts = []
-                d = rng.choice([0, 1, 1, 2, 2, 3])
+                d = rng.choice([0, 3, 4, 4, 5, 6, 7]) if wide else rng.choice([0, 1, 1, 2, 2, 3])
                 for _ in range(d):
                     ts.append(rng.choice(names[1:]) if n > 1 else nm)
                 if ts and rng.random() < 0.35:
